@@ -1051,6 +1051,14 @@ func genTarget(r *common.Rand, dirPathRel string, names []string) string {
 		}
 	case 11:
 		return wdDir + "/" + dirPathRel + "/" + pickSeg(r) + "/" + ups(1+r.Intn(4)) + pickSeg(r)
+	case 12:
+		if len(names) > 0 {
+			// below an earlier entry (a regular file: ENOTDIR for the parent check)
+			n := strings.TrimPrefix(strings.TrimPrefix(common.Pick(r, names), dirPathRel), "/")
+			if n != "" {
+				return n + "/" + pickSeg(r) + "/" + pickSeg(r)
+			}
+		}
 	}
 	return relName(r, nil)
 }
